@@ -366,6 +366,44 @@ def run(ctx):
                     else:
                         judge_line(ctx, srv, model, f, t2, l1, colx, "none", None, ws.files | {rel: t2}, "typing")
                 srv.did_change(f, doc)
+            if i % 2 == 1:
+                # a large new version and a completion request leave the editor together: the answer is about the new text
+                from ..lsp import path_to_uri
+                pad = "".join(f"def helper_pad_{k}(a, b):\n    c = [a, b]\n    return c\n\n" for k in range(2500))
+                big = doc.rstrip("\n") + "\n\n" + pad + "@pytest.fixture\ndef late_fixture_xyz():\n    return 1\n\ndef test_late():\n    pass\n"
+                if "import pytest" in doc:
+                    bl = big.split("\n")
+                    ln = len(bl) - 3
+                    with srv.batch():
+                        srv.did_change(f, big)
+                        rec = srv.request_nowait("textDocument/completion", {"textDocument": {"uri": path_to_uri(f)},
+                                                                               "position": {"line": ln, "character": len("def test_late(")}})
+                    srv.wait_for(rec, timeout=60)
+                    ctx.judged()
+                    if not rec["answered"]:
+                        raise Inconclusive("completion unanswered")
+                    items = rec.get("result") or []
+                    if isinstance(items, dict):
+                        items = items.get("items", [])
+                    labels = {it["label"] for it in items}
+                    if "late_fixture_xyz" not in labels:
+                        ctx.violation({"kind": "completion-sent-with-a-change-answers-about-the-previous-text"},
+                                      {"offered": sorted(labels)[:10], "expected_to_contain": "late_fixture_xyz", "line": ln}, files={"doc.py": doc[:2000]})
+                    ctx.nontrivial(("completion_behind_change",))
+                    srv.did_change(f, doc)
+            if early:
+                # the plugin module itself is being edited: its own fixtures are "same file" there
+                ptext = ws.files["wsplug/plugin_mod.py"]
+                pcl = line_classes(ptext)
+                pl = ptext.split("\n")
+                for l1 in range(1, len(pl) + 1):
+                    klass, info = pcl.get(l1, ("none", None))
+                    if klass not in ("signature", "body"):
+                        continue
+                    txt = pl[l1 - 1]
+                    col = len(txt) - len(txt.lstrip()) if klass == "body" else (txt.find("(") + 1 if "(" in txt else len(txt))
+                    judge_line(ctx, srv, model, pm, ptext, l1, col, klass, info, ws.files, "plugin_module")
+                ctx.nontrivial(("plugin_module_edited",))
             ctx.sample({"doc": doc[:1000], "visible": sorted(model.visible_names(f))})
             ctx.count("documents")
         finally:
